@@ -345,6 +345,78 @@ class History:
             if r is not sender and r not in self.active_raws():
                 mon.v("other-peer-disconnected-by-delivery", "class %s: a peer other than the sender lost its connection" % cls, w)
 
+    def bulk_run_then_rejected(self, n):
+        """n valid blocks arrive as bulk-download replies (taken, by design, without in-state validation and kept in the
+        store's write buffer), then a rule-breaking block is RELAYED on top of them: it must be refused, leave no row in the
+        store, and the node falls back to what it had validated"""
+        mon, c, world, node, rng = self.mon, self.mon.c, self.world, self.node, self.rng
+        cm = node.lp.chain_manager
+        before_cs = cm.coinstate
+        rows_before = self.rows()
+        tmp = world.fork()
+        head = before_cs.current_chain_hash
+        if head not in tmp.chain.blocks:
+            return
+        blocks = []
+        try:
+            for _ in range(n):
+                parent = tmp.chain.blocks[head]
+                rb, real = tmp.assemble(head, [], parent.ts + 1, rng.choice(tmp.keys)[1], route="ref")
+                if tmp.accept(rb, real, validate=False) is None:
+                    return
+                blocks.append((rb, real))
+                head = rb.id()
+            built = cstream.v_reward_plus_one(tmp, head, rng)
+        except Exception:
+            return
+        if not blocks or built is None:
+            return
+        bad = built[0]
+        self.net.clock.t = world.now = max(world.now, bad.ts + 10)
+        act = self.active_raws() or [self.add_peer()]
+        sender = rng.choice(act)
+        self.in_ibd_delivery = True
+        try:
+            for k, (rb, real) in enumerate(blocks):
+                sender.push(self.wire.block(real, in_response_to=4000 + k))
+                if k % 20 == 19:
+                    self.net.settle(node)
+            self.net.settle(node)
+        finally:
+            self.in_ibd_delivery = False
+        c["bulk_runs"] = c.get("bulk_runs", 0) + 1
+        c["bulk_blocks_delivered"] = c.get("bulk_blocks_delivered", 0) + len(blocks)
+        c["bulk_run_lengths"] = sorted(set(c.get("bulk_run_lengths", [])) | {n})
+        held = sum(1 for rb, _r in blocks if rb.id() in cm.coinstate.block_by_hash)
+        w = {"kind": "bulk-run", "chain": gen.blocks_hex(world, world.chain.order[1:]), "bulk": [rb.enc().hex() for rb, _r in blocks],
+             "rejected": bad.enc().hex()}
+        rng.choice(self.active_raws() or [self.add_peer()]).push(self.wire.block(bridge.rblock_to_real(bad)))
+        self.net.settle(node)
+        rows_after = self.rows()
+        c["deliveries"] += 1
+        c["rejected"] += 1
+        self.had_rejection = True
+        if bad.id() in cm.coinstate.block_by_hash:
+            mon.v("rejected-block-in-chain-state:reward", "a reward-too-high block relayed on top of %d bulk-download blocks is part of "
+                  "the chain state" % n, w)
+        if rows_after.get(bad.id(), 0):
+            mon.v("rejected-block-in-store", "class reward-plus-one after a bulk run of %d blocks (%d held): the rejected block has a "
+                  "row in the chain table" % (n, held), w)
+        if any(b.hash() == bad.id() for b in self.store.write_buffer):
+            mon.v("rejected-block-left-in-write-buffer", "class reward-plus-one after a bulk run of %d blocks" % n, w)
+        if node.escaped:
+            mon.v("exception-escaped-event-handler", node.escaped[0][:300], w)
+            node.escaped.clear()
+        # whatever of the bulk blocks the node kept, the harness world does not know them: bring the node back to the
+        # state both agree on
+        if cm.coinstate is not before_cs and gen.fingerprint(cm.coinstate) != gen.fingerprint(before_cs):
+            c["bulk_blocks_kept_after_rejection"] = c.get("bulk_blocks_kept_after_rejection", 0) + 1
+            self.store.write_buffer.clear()
+            cm.set_coinstate(before_cs)
+        if set(rows_after) - set(rows_before):
+            c["bulk_blocks_written_before_validation"] = c.get("bulk_blocks_written_before_validation", 0) + len(set(rows_after) - set(rows_before))
+            self.diverged = True        # the store now holds blocks the harness world does not: end this history
+
     def run(self, ndeliv, classes):
         rng, world, c = self.rng, self.world, self.mon.c
         names = sorted(classes)
@@ -360,6 +432,35 @@ class History:
                 rb, cls0 = rng.choice(self.rejected_blocks[-30:])
                 c["redelivered_rejected"] = c.get("redelivered_rejected", 0) + 1
                 self.deliver(rb, cls0 + "@re-delivered", None, None)
+                if getattr(self, "diverged", False):
+                    break
+                continue
+            if 0.50 <= r < 0.53:
+                self.bulk_run_then_rejected(rng.choice([1, 3, 9, 15, 31, 49, 63, 99, 99, 127, 199, 255]))
+                if getattr(self, "diverged", False):
+                    break
+                continue
+            if 0.45 <= r < 0.50:
+                # a valid child arrives BEFORE its (valid) parent: ignored as an orphan; then the parent; then the child again
+                # (from the same or another peer) -- which now has to be taken like any other valid block
+                try:
+                    pid0 = world.cs.current_chain_hash if rng.random() < 0.6 else rng.choice(sorted(world.cs.heads.keys()))
+                    tmp = world.fork()
+                    p_rb, p_real = tmp.assemble(pid0, [], tmp.chain.blocks[pid0].ts + rng.choice([1, 60]), rng.choice(tmp.keys)[1], route="ref")
+                    if tmp.accept(p_rb, p_real) is None:
+                        raise RuntimeError("no parent")
+                    c_rb, _c_real = tmp.assemble(p_rb.id(), [], p_rb.ts + rng.choice([1, 60]), rng.choice(tmp.keys)[1], route="ref")
+                except Exception:
+                    c["class_material_missing"] += 1
+                    continue
+                if c_rb.ts > world.now + 30:
+                    self.net.clock.t = world.now = c_rb.ts + 10
+                c["children_before_parents"] = c.get("children_before_parents", 0) + 1
+                self.deliver(c_rb, "valid-child-before-its-parent", None, None)
+                self.deliver(p_rb, "valid-parent-after-its-child", set(), set())
+                if not getattr(self, "diverged", False) and p_rb.id() in world.chain.blocks:
+                    for _rep in range(rng.choice([1, 1, 2])):
+                        self.deliver(c_rb, "valid-child-again-after-its-parent", None, None)
                 if getattr(self, "diverged", False):
                     break
                 continue
@@ -532,7 +633,8 @@ def finalize(m, tier):
     c = m["counters"]
     floors = [("deliveries", c.get("deliveries", 0), 1500), ("accepted", c.get("accepted", 0), 400),
               ("rejected", c.get("rejected", 0), 400), ("duplicates", c.get("duplicates", 0), 100),
-              ("orphans", c.get("orphans", 0), 10), ("new_heads", c.get("new_heads", 0), 200),
+              ("orphans", c.get("orphans", 0), 10), ("children_before_parents", c.get("children_before_parents", 0), 30),
+              ("bulk_runs", c.get("bulk_runs", 0), 20), ("new_heads", c.get("new_heads", 0), 200),
               ("accepted_non_head", c.get("accepted_non_head", 0), 50), ("reorg_new_heads", c.get("reorg_new_heads", 0), 10),
               ("apply_error_deliveries", c.get("apply_error_deliveries", 0), 60),
               ("valid_after_rejection_stored", c.get("valid_after_rejection_stored", 0), 200),
